@@ -686,6 +686,15 @@ func (tt *TermTable) Extract(a *Term, hi, lo uint16) *Term {
 		if a.a[1].op == OpConst || a.a[2].op == OpConst {
 			return tt.Ite(a.a[0], tt.Extract(a.a[1], hi, lo), tt.Extract(a.a[2], hi, lo))
 		}
+	case OpAdd, OpSub, OpMul, OpBAnd, OpBOr, OpBXor:
+		// truncation distributes over ring and bitwise operations
+		if lo == 0 && a.w <= 64 {
+			x, y := a.a[0], a.a[1]
+			simple := func(t *Term) bool { return t.op == OpConst || t.op == OpZext || t.op == OpSext || t.op == OpConcat }
+			if simple(x) || simple(y) {
+				return tt.bin(a.op, tt.Extract(x, hi, 0), tt.Extract(y, hi, 0))
+			}
+		}
 	}
 	return tt.mk(OpExtract, w, uint64(hi)<<16|uint64(lo), "", a, nil, nil)
 }
